@@ -147,6 +147,15 @@ def run(payload):
                 st.start_writing(s); st.append(s, 0); back = st[0]
                 if sm(back.data, st.data[0]) or sm(st.data[0], s.data):
                     fail("storage_aliasing", **tag)
+    # ---- the list handed to the constructor stays the caller's: appending to it later does not add a member without rows
+    from pde import UnitGrid as _UG0
+    g0 = _UG0([3])
+    lst = [ScalarField(g0, 1.0), ScalarField(g0, 2.0)]
+    fc0 = FieldCollection(lst)
+    lst.append(ScalarField(g0, 3.0))
+    cases += 1
+    if len(fc0) != 2 or len(fc0.data) != 2:
+        fail("collection_grows_with_the_caller's_list", members=len(fc0), rows=int(len(fc0.data)))
     # ---- assignment through a label that several members carry (e.g. after fc.append(fc)): only the first one is written
     from pde import UnitGrid as _UG
     g = _UG([3])
